@@ -233,7 +233,7 @@ func Generate(seed uint64, up string, token string, qname refdns.Name, qclass, q
 		m.Ar = append(m.Ar, mk(2, i))
 	}
 	// padding records (large answers)
-	if spec.PadTo > 0 {
+	if spec.PadTo > 0 && spec.Shape != "tight" {
 		i := 0
 		for refdns.UncompressedLen(m) < spec.PadTo && i < 4000 {
 			n := 200
@@ -251,6 +251,65 @@ func Generate(seed uint64, up string, token string, qname refdns.Name, qclass, q
 				m.An = append(m.An, rr)
 			}
 			i++
+		}
+	}
+	// "tight" shape: the bulk of the answer is small records of every
+	// interpreted type whose owner and RDATA names share nothing with any other
+	// name, so compression saves nothing and a size limit falls on a record of
+	// any type with no slack.
+	if spec.Shape == "tight" && spec.PadTo > 0 {
+		uniq := func() refdns.Name {
+			a := make([]byte, 1+r.intn(8))
+			for j := range a {
+				a[j] = 'a' + byte(r.intn(26))
+			}
+			b := make([]byte, 1+r.intn(5))
+			for j := range b {
+				b[j] = 'a' + byte(r.intn(26))
+			}
+			if r.intn(6) == 0 {
+				return refdns.NameFromLabels(a)
+			}
+			return refdns.NameFromLabels(a, b)
+		}
+		tt := []uint16{refdns.TypeSRV, refdns.TypeMX, refdns.TypeNS, refdns.TypeCNAME, refdns.TypeSOA, refdns.TypeA, refdns.TypeAAAA, refdns.TypeTXT, refdns.TypePTR, 99}
+		for i := 0; refdns.UncompressedLen(m) < spec.PadTo && i < 3000; i++ {
+			t := tt[r.intn(len(tt))]
+			rr := refdns.RR{Name: uniq(), Type: t, Class: qclass, TTL: ttl(60 + i)}
+			if r.intn(5) == 0 {
+				rr.Name = refdns.Root
+			}
+			tn := uniq()
+			if r.intn(5) == 0 {
+				tn = refdns.Root
+			}
+			switch t {
+			case refdns.TypeA:
+				rr.Data = sr.bytes(4)
+			case refdns.TypeAAAA:
+				rr.Data = sr.bytes(16)
+			case refdns.TypeCNAME, refdns.TypeNS, refdns.TypePTR:
+				rr.Data = append([]byte{}, tn...)
+			case refdns.TypeMX:
+				rr.Data = append(sr.bytes(2), tn...)
+			case refdns.TypeSRV:
+				rr.Data = append(sr.bytes(6), tn...)
+			case refdns.TypeSOA:
+				rr.Data = append(append(append([]byte{}, tn...), uniq()...), sr.bytes(20)...)
+			case refdns.TypeTXT:
+				x := sr.bytes(1 + sr.intn(6))
+				rr.Data = append([]byte{byte(len(x))}, x...)
+			default:
+				rr.Data = sr.bytes(sr.intn(7))
+			}
+			switch i % 3 {
+			case 0:
+				m.An = append(m.An, rr)
+			case 1:
+				m.Ns = append(m.Ns, rr)
+			default:
+				m.Ar = append(m.Ar, rr)
+			}
 		}
 	}
 	// "late" shape: names whose first occurrence lies beyond offset 16383 (after
